@@ -15,6 +15,7 @@ structure LInv (dp : Path) (w : World) : Prop where
   dest : w.fs.isDir dp = true
   names : NameWF w.fs
   tree : TreeWF w.fs
+  dirone : DirOne w.fs
 
 def LStepOK (dp : Path) (w w' : World) : Prop := Confined dp w.fs w'.fs ∧ LInv dp w'
 
@@ -60,21 +61,21 @@ theorem LStepOK.create (dp : Path) (w : World) (h : LInv dp w) (q : Path) (n : I
     LStepOK dp w { w with fs := w.fs.create q n } :=
   ⟨create_confined dp w.fs q n hn hu (h.parent_under hu hn) h.fresh,
    ⟨h.root, h.nosym.of_kindsFrom (kindsFrom_create _ w.fs q n hn h.fresh hk), h.fresh.create q n hn,
-    dirKept_create dp w.fs q n hn h.fresh h.dest, h.names.create q n hn hq, h.tree.create q n hn h.fresh hpd⟩⟩
+    dirKept_create dp w.fs q n hn h.fresh h.dest, h.names.create q n hn hq, h.tree.create q n hn h.fresh hpd, h.dirone.create q n hn h.fresh⟩⟩
 
 theorem LStepOK.modInode (dp : Path) (w : World) (h : LInv dp w) (q : Path) (i : Ino) (f : Inode → Inode)
     (hu : under dp q = true) (hq : w.fs.lookup q = some i) (hf : ∀ n, (f n).kind = n.kind) :
     LStepOK dp w { w with fs := w.fs.modInode i f } :=
   ⟨modInode_confined dp w.fs i f q hq hu,
    ⟨h.root, h.nosym.of_kindsFrom (kindsFrom_modInode _ w.fs i f hf), h.fresh.modInode i f,
-    dirKept_modInode dp w.fs i f hf h.dest, h.names.modInode i f, h.tree.modInode i f hf⟩⟩
+    dirKept_modInode dp w.fs i f hf h.dest, h.names.modInode i f, h.tree.modInode i f hf, h.dirone.modInode i f hf⟩⟩
 
 theorem LStepOK.setInode (dp : Path) (w : World) (h : LInv dp w) (q : Path) (i : Ino) (n m : Inode)
     (hu : under dp q = true) (hq : w.fs.lookup q = some i) (hi : w.fs.inode i = some n) (hk : m.kind = n.kind) :
     LStepOK dp w { w with fs := w.fs.setInode i m } :=
   ⟨setInode_confined dp w.fs i m q hq hu,
    ⟨h.root, h.nosym.of_kindsFrom (kindsFrom_setInode _ w.fs i n m hi hk q hq), h.fresh.setInode i m,
-    dirKept_setInode dp w.fs i n m hi hk h.dest, h.names.setInode i m, h.tree.setInode i n m hi hk⟩⟩
+    dirKept_setInode dp w.fs i n m hi hk h.dest, h.names.setInode i m, h.tree.setInode i n m hi hk, h.dirone.setInode i n m hi hk⟩⟩
 
 theorem mkdirOne_lex (dp : Path) (w : World) (p : Str) (perm : Nat) (h : LInv dp w) (hp : LexArg dp p) :
     LStepOK dp w (mkdirOne w p perm).2 := by
@@ -134,7 +135,7 @@ theorem step_lex (dp : Path) (w : World) (s : Sys) (h : LInv dp w) (hs : SysLex 
     all_goals exact LStepOK.same dp w h
   | setUmask m =>
     simp only [step]
-    exact ⟨Confined.refl _ _, ⟨h.root, h.nosym, h.fresh, h.dest, h.names, h.tree⟩⟩
+    exact ⟨Confined.refl _ _, ⟨h.root, h.nosym, h.fresh, h.dest, h.names, h.tree, h.dirone⟩⟩
   | mkdir p perm =>
     simp only [step]
     exact mkdirOne_lex dp w p perm h hs
@@ -202,7 +203,13 @@ theorem step_lex (dp : Path) (w : World) (s : Sys) (h : LInv dp w) (hs : SysLex 
       · rename_i i hi
         split
         · exact LStepOK.same dp w h
-        · split
+        · rename_i hisdir
+          have hnotdir : ∀ n, w.fs.inode i = some n → n.kind ≠ .dir := by
+            intro n hn hk
+            apply hisdir
+            rw [isDir_iff]
+            exact ⟨n, by rw [get_def, hi]; exact hn, hk⟩
+          split
           · exact LStepOK.same dp w h
           · rename_i hex
             split
@@ -215,7 +222,7 @@ theorem step_lex (dp : Path) (w : World) (s : Sys) (h : LInv dp w) (hs : SysLex 
                 ⟨h.root, h.nosym.of_kindsFrom (kindsFrom_addName _ w.fs qn qo i hnone hi),
                  h.fresh.addName qn qo i hnone hi, dirKept_addName dp w.fs qn i hnone h.dest,
                  h.names.addName qn i hnone (by rw [(h.under_of_resolveC hs.2 hqn).1]; exact hs.2.norm),
-                 h.tree.addName qn qo i hnone hi (by simpa using hpd)⟩⟩
+                 h.tree.addName qn qo i hnone hi (by simpa using hpd), h.dirone.addName qn i hnone hnotdir⟩⟩
   | chown p uid gid follow =>
     simp only [step]
     split
@@ -283,6 +290,6 @@ theorem step_lex (dp : Path) (w : World) (s : Sys) (h : LInv dp w) (hs : SysLex 
             exact hne hu.symm
           · exact ⟨removeSubtree_confined dp w.fs q hu (under_dropLast hu hne),
               ⟨h.root, h.nosym.of_kindsFrom (kindsFrom_removeSubtree _ w.fs q), h.fresh.removeSubtree q,
-               dirKept_removeSubtree dp w.fs q hu hne h.dest, h.names.removeSubtree q, h.tree.removeSubtree q⟩⟩
+               dirKept_removeSubtree dp w.fs q hu hne h.dest, h.names.removeSubtree q, h.tree.removeSubtree q, h.dirone.removeSubtree q⟩⟩
 
 end GA
